@@ -32,7 +32,8 @@ def gen_cases(spec, P, rng, n_dirs, thorough, wellformed=False):
         max_size = 200 * 1024 if thorough and d % 50 == 0 else (8192 if d % 10 else 70000)
         for p in chosen:
             # sizes around the BER length boundaries of the three nested TLV lengths of a data answer (payload, +11, +13)
-            size = rng.choice([0, 1, 2, 255, 256, 1000, rng.randint(0, max_size), rng.randint(110, 132), rng.randint(238, 260)])
+            size = rng.choice([0, 1, 2, 255, 256, 1000, rng.randint(0, max_size), rng.randint(110, 132), rng.randint(238, 260)] +
+                              ([66000, 70000, 131072 + 5] if max_size >= 70000 else []))
             seed = rng.randrange(1000)
             files[table[p]] = content(size, seed)
             # one entry in four is a symbolic link to the payload file (staged release trees): same size, same bytes
@@ -58,10 +59,22 @@ def gen_cases(spec, P, rng, n_dirs, thorough, wellformed=False):
             # request plan: random requests, or a structured walk (sequential per file, round-robin over files,
             # continuing in another file at the offset where the previous block ended)
             plan = []
-            mode = rng.choice(["sequential", "roundrobin", "continue"]) if wellformed else rng.choice(["random", "random", "sequential", "roundrobin", "continue"])
+            mode = rng.choice(["sequential", "roundrobin", "continue", "jump"]) if wellformed else rng.choice(["random", "random", "sequential", "roundrobin", "continue", "jump"])
             if mode == "random":
                 for _ in range(rng.randint(0, 6)):
                     plan.append(None)
+            elif mode == "jump":
+                # the SAME (largest) file at unaligned offsets, forwards and backwards: the start, then offsets just inside / at / just
+                # behind multiples of the block size and of 4 KiB / 64 KiB windows, then back — whatever was read before, each answer
+                # is the block at the requested offset
+                fid = max(ids, key=lambda i: len(files[i]))
+                n = len(files[fid])
+                plan.append((fid, 0))
+                for _k in range(rng.randint(2, 5)):
+                    w = rng.choice([block, 4096, 65536, block * max(1, 65536 // block), block * max(1, 4096 // block)])
+                    base = w * rng.randint(1, 2)
+                    o = rng.choice([base - rng.randint(1, max(1, block)), base - 1, base, base + 1, rng.randint(0, max(0, n))])
+                    plan.append((fid, max(0, o)))
             elif mode == "sequential":
                 for fid in ids[:3]:
                     for k in range(rng.randint(1, 3)):
